@@ -1,5 +1,6 @@
 import Vorbis.Generated.Funcs
 import Vorbis.Bits
+import Vorbis.Proofs.Lookup1
 /-
 Lemmas about the function bodies regenerated from /repo by tools/c2lean.py
 (`Vorbis/Generated/Funcs.lean`).  Property theorems built on them are in Props/C02.lean.
@@ -223,5 +224,109 @@ theorem run_eq (v : Nat) (fuel : Nat) (hf : ilogNat v < fuel) :
   simp [h, Ctl.val?]
 
 end IL
+
+
+/-! ## `_book_maptype1_quantvals` (lib/sharedbook.c) is the model's `lookup1Search`, which terminates and is right -/
+open Vorbis Vorbis.Setup Vorbis.Proofs.Lookup1
+namespace QV
+open book_maptype1_quantvals
+
+/-- the inner `for` of `_book_maptype1_quantvals` is the model's `lookup1Acc` -/
+theorem inner_eq : ∀ (k : Nat) (fuel : Nat) (s : St) (i : Nat), s.i = (i : Int) → s.b_dim = ((i + k : Nat) : Int) → k < fuel →
+    loop2 fuel s = .norm { s with i := ((lookup1Acc s.b_entries s.vals k i s.acc s.acc1).1 : Int),
+                                  acc := (lookup1Acc s.b_entries s.vals k i s.acc s.acc1).2.1,
+                                  acc1 := (lookup1Acc s.b_entries s.vals k i s.acc s.acc1).2.2 }
+  | 0, fuel + 1, s, i, hi, hd, _ => by
+      have hc : ¬ (s.i < s.b_dim) := by omega
+      simp only [loop2, loop, hc, decide_false, Bool.false_eq_true, if_false, lookup1Acc]
+      cases s; simp_all
+  | k + 1, fuel + 1, s, i, hi, hd, hf => by
+      have hc : s.i < s.b_dim := by omega
+      by_cases hb : Int.tdiv s.b_entries s.vals < s.acc
+      · simp only [loop2, loop, hc, decide_true, if_true, loop2_body, seq, ifS, hb, brkS, lookup1Acc]
+        cases s; simp_all
+      · have ih := inner_eq k fuel
+          { s with acc := s.acc * s.vals,
+                   acc1 := (if Int.tdiv 9223372036854775807 (s.vals + 1) < s.acc1 then 9223372036854775807 else s.acc1 * (s.vals + 1)),
+                   i := s.i + 1 } (i + 1) (by simp [hi]) (by simp [hd]; omega) (by omega)
+        simp only [loop2, loop, hc, decide_true, if_true, loop2_body, seq, ifS, hb, decide_false, Bool.false_eq_true, if_false, skip, act] at ih ⊢
+        by_cases h1 : Int.tdiv 9223372036854775807 (s.vals + 1) < s.acc1
+        · simp only [h1, decide_true, if_true] at ih ⊢
+          rw [ih]; simp [lookup1Acc, hb, h1, LONG_MAX]
+        · simp only [h1, decide_false, Bool.false_eq_true, if_false] at ih ⊢
+          rw [ih]; simp [lookup1Acc, hb, h1, LONG_MAX]
+
+
+/-- the outer `while(1)` is the model's `lookup1Search`: when the model answers `r` within `n` corrections, so does the C -/
+theorem outer_eq (F : Nat) (dim : Nat) (hF : dim < F) : ∀ (n : Nat) (fuel : Nat) (s : St) (r : Int), s.b_dim = (dim : Int) →
+    lookup1Search s.b_entries dim n s.vals = some r → n ≤ fuel →
+    ∃ s', loop (fun s => s) (fun _ => true) (loop1_body F) (fun s => s) fuel s = .ret r s'
+  | 0, _, s, r, _, h, _ => by simp [lookup1Search] at h
+  | n + 1, 0, s, r, _, _, hf => by omega
+  | n + 1, fuel + 1, s, r, hd, h, hf => by
+      have hin := inner_eq dim F { s with acc := 1, acc1 := 1, i := 0 } 0 (by simp) (by simp [hd]) hF
+      rw [lookup1Search.eq_2] at h
+      generalize hq : lookup1Acc s.b_entries s.vals dim 0 1 1 = q at h hin
+      obtain ⟨i, acc, acc1⟩ := q
+      simp only at h hin
+      simp only [loop, if_true, loop1_body, seq, act, hin, ifS]
+      by_cases c1 : i ≥ dim ∧ acc ≤ s.b_entries ∧ acc1 > s.b_entries
+      · simp only [c1, and_self, if_true, Option.some.injEq] at h
+        have c1' : ((decide ((i : Int) ≥ s.b_dim) && decide (acc ≤ s.b_entries)) && decide (acc1 > s.b_entries)) = true := by
+          simp [hd, c1.1, c1.2.1, c1.2.2]
+        simp only [c1', if_true, retS]
+        exact ⟨_, by rw [h]⟩
+      · simp only [c1, if_false] at h
+        have c1' : ((decide ((i : Int) ≥ s.b_dim) && decide (acc ≤ s.b_entries)) && decide (acc1 > s.b_entries)) = false := by
+          simp only [hd, Bool.and_eq_false_iff, decide_eq_false_iff_not]
+          by_cases a : i ≥ dim
+          · by_cases b : acc ≤ s.b_entries
+            · right; intro c; exact c1 ⟨a, b, c⟩
+            · left; right; exact b
+          · left; left; omega
+        simp only [c1', Bool.false_eq_true, if_false]
+        by_cases c2 : i < dim ∨ acc > s.b_entries
+        · simp only [c2, if_true] at h
+          have c2' : (decide ((i : Int) < s.b_dim) || decide (acc > s.b_entries)) = true := by
+            simp only [hd, Bool.or_eq_true, decide_eq_true_eq]
+            rcases c2 with a | b
+            · left; omega
+            · right; exact b
+          simp only [c2', if_true]
+          exact outer_eq F dim hF n fuel _ r (by simp [hd]) (by simpa using h) (by omega)
+        · simp only [c2, if_false] at h
+          have c2' : (decide ((i : Int) < s.b_dim) || decide (acc > s.b_entries)) = false := by
+            simp only [hd, Bool.or_eq_false_iff, decide_eq_false_iff_not]
+            constructor
+            · intro a; exact c2 (Or.inl (by omega))
+            · intro b; exact c2 (Or.inr b)
+          simp only [c2', Bool.false_eq_true, if_false]
+          exact outer_eq F dim hF n fuel _ r (by simp [hd]) (by simpa using h) (by omega)
+
+/-- **`_book_maptype1_quantvals` as it stands in lib/sharedbook.c terminates and is right, whatever the float guess**:
+    for `dim ≥ 1`, `1 ≤ entries < LONG_MAX`, ANY value `guess` of `floor(pow((float)entries,1.f/dim))`, and fuel beyond
+    `entries + max guess 1 + dim`, the function returns the `r ≥ 1` with `r^dim ≤ entries < (r+1)^dim` -/
+theorem run_correct (entries guess : Int) (dim : Nat) (hd : 1 ≤ dim) (he : 1 ≤ entries) (hmax : entries < LONG_MAX)
+    (fuel : Nat) (hf : (entries + (if guess < 1 then 1 else guess)).toNat + dim + 2 < fuel) :
+    ∃ r, 1 ≤ r ∧ (run entries guess (dim : Int) fuel).val? = some r ∧ r ^ dim ≤ entries ∧ entries < (r + 1) ^ dim := by
+  have hne : ¬ (entries < 1) := by omega
+  obtain ⟨r, hr, hs, ha, hb⟩ := search_correct entries dim hd he hmax (if guess < 1 then 1 else guess) (by split <;> omega) fuel (by omega)
+  refine ⟨r, hr, ?_, ha, hb⟩
+  simp only [run, body, init, seq, ifS, act, skip, hne, decide_false, Bool.false_eq_true, if_false, loop1]
+  by_cases hg : guess < 1
+  · simp only [hg, decide_true, if_true] at hs ⊢
+    obtain ⟨s', h'⟩ := outer_eq fuel dim (by omega) fuel fuel
+      { b_entries := entries, fp_vals := guess, b_dim := (dim : Int), vals := 1 } r rfl hs (Nat.le_refl _)
+    rw [h']; rfl
+  · simp only [hg, decide_false, Bool.false_eq_true, if_false] at hs ⊢
+    obtain ⟨s', h'⟩ := outer_eq fuel dim (by omega) fuel fuel
+      { b_entries := entries, fp_vals := guess, b_dim := (dim : Int), vals := guess } r rfl hs (Nat.le_refl _)
+    rw [h']; rfl
+
+/-- an empty book needs no values -/
+theorem run_empty (entries guess dim : Int) (fuel : Nat) (he : entries < 1) : (run entries guess dim fuel).val? = some 0 := by
+  simp [run, body, init, seq, ifS, he, retS, Ctl.val?]
+
+end QV
 
 end Vorbis.Proofs.Funcs
